@@ -30,6 +30,19 @@ COMPONENTS = [
      ['latch.h', 'detail/completion_event_impl.h'], 'OrdersEvent', 'MCEventHB.tla',
      [('MC_hb.cfg', 'CompletionEvent notify/wait/waitFor and Latch count_down/arrive_and_wait/wait/try_wait publishing data', 'quick')]),
 ]
+# components whose code uses std::atomic_thread_fence: composed with spec/lib/MemOrderF.tla.  `tentative` cfgs additionally
+# count the discarded tentative reads of losing stealers: a violation there is replayed on the real deque and reported
+# (known finding: the formal race of Chase-Lev with plain slots).
+FENCE_COMPONENTS = [
+    ('chaselev', 'spec/chaselev', ['ChaseLev.tla', 'ChaseLevHB.tla', 'MCChaseLevHB.tla', 'MC_hb1.cfg', 'MC_hb2.cfg', 'MC_hbt1.cfg', 'MC_hbt2.cfg'],
+     ['chase_lev_deque.h'], 'OrdersChaseLev', 'MCChaseLevHB.tla',
+     [('MC_hb1.cfg', 'ChaseLevDeque capacity 2: owner push x4 (wrap-around) / pop / pop_into vs 2 stealers (steal, steal_into)', 'quick'),
+      ('MC_hb2.cfg', 'ChaseLevDeque capacity 1: every push reuses the slot; owner vs 2 stealers + observer', 'quick')],
+     [('MC_hbt2.cfg', 1, 'o:push1,push2,pop,push3,push4;s1:steal,steal;s2:stealinto,empty', 'quick'),
+      ('MC_hbt1.cfg', 2, 'o:push1,push2,pop,push3,popinto,push4;s1:steal,stealinto;s2:stealinto', 'thorough')]),
+]
+LITMUSF_CLEAN = ['clean_ff', 'clean_fsc', 'clean_fa', 'clean_rf']
+LITMUSF_RACY = ['racy_nowf', 'racy_norf', 'racy_wrongkind', 'racy_wrongkind2']
 LITMUS_CLEAN = ['clean_relacq', 'clean_seqcst', 'clean_rmw']
 LITMUS_RACY = ['racy_wrelaxed', 'racy_rrelaxed', 'racy_rmwrelaxed', 'racy_broken_relseq']
 
@@ -42,14 +55,24 @@ def run(ctx):
         racy = r.violation == 'Invariant RaceFree'
         if racy != (name in LITMUS_RACY):
             raise vlib.ToolError('MemOrder self-test failed on litmus %s (violation=%s)' % (name, r.violation))
+    for name in LITMUSF_CLEAN + LITMUSF_RACY:
+        r = ctx.tlc('spec/lib', 'LitmusF.tla', 'LitmusF_%s.cfg' % name, workers=1, label='fence litmus ' + name, timeout=300)
+        racy = r.violation == 'Invariant RaceFree'
+        if racy != (name in LITMUSF_RACY):
+            raise vlib.ToolError('MemOrderF self-test failed on fence litmus %s (violation=%s)' % (name, r.violation))
     # 2. components
     extracted = {}
-    for comp, specdir, files, sources, ordmod, mcmod, cfgs in COMPONENTS:
+    tentative = {}
+    for entry in COMPONENTS + FENCE_COMPONENTS:
+        comp, specdir, files, sources, ordmod, mcmod, cfgs = entry[:7]
+        if len(entry) > 7:
+            tentative[comp] = entry[7]
         wd = os.path.join(ctx.work, comp)
         os.makedirs(wd, exist_ok=True)
         for f in files:
             shutil.copy(os.path.join(vlib.ROOT, specdir, f), wd)
         shutil.copy(os.path.join(vlib.ROOT, 'spec/lib/MemOrder.tla'), wd)
+        shutil.copy(os.path.join(vlib.ROOT, 'spec/lib/MemOrderF.tla'), wd)
         srcs = [os.path.join(vlib.REPO, 'dispenso', s) for s in sources]
         p = subprocess.run([sys.executable, os.path.join(vlib.ROOT, 'bin/extract_orders.py'), ordmod,
                             os.path.join(wd, ordmod + '.tla')] + srcs, stdout=subprocess.PIPE, stderr=subprocess.STDOUT, text=True)
@@ -68,15 +91,48 @@ def run(ctx):
                                        'component %s, %s\nTLC: %s\n\nmemory orders extracted from the working tree:\n%s\n\n%s'
                                        % (comp, label, r.violation, extracted[comp], r.counterexample()))
                 ctx.violation('model:%s:%s:%s' % (comp, cfg, r.violation), WHAT + ' [' + label + ']: ' + r.violation, path)
+    # 3. ChaseLevDeque: the discarded tentative slot reads of losing stealers
+    for cfg, cap, prog, tier in tentative.get('chaselev', []):
+        if tier == 'thorough' and not thorough:
+            continue
+        wd = os.path.join(ctx.work, 'chaselev')
+        r = ctx.tlc(wd, 'MCChaseLevHB.tla', cfg, workers=1, label='ChaseLevDeque incl. tentative steal reads, capacity %d' % cap, timeout=1500)
+        ctx.cov.setdefault('tentative_read_models', []).append({'cfg': cfg, 'violation': r.violation, 'states': r.distinct})
+        if r.violation == 'Invariant TentativeReadRaceFree':
+            cex = os.path.join(wd, cfg + '.cex.txt')
+            open(cex, 'w').write(r.counterexample())
+            sched = os.path.join(wd, cfg + '.sched')
+            p = subprocess.run([sys.executable, os.path.join(vlib.ROOT, 'bin/hbcex2sched.py'), cex], stdout=subprocess.PIPE, text=True)
+            open(sched, 'w').write(p.stdout)
+            exe = ctx.build('drv_chaselev', ['harness/drv/drv_chaselev.cpp', 'harness/ctl/ctl.cpp'])
+            tr = os.path.join(wd, cfg + '.ndjson')
+            tot, _ = ctx.driver(exe, ['--out', tr, '--cap', cap, '--prog', prog, '--schedules', sched], WHAT,
+                                label='replay of the racy interleaving on the real ChaseLevDeque')
+            if tot.get('completed', 0) != 1 or tot.get('diverged', 0):
+                raise vlib.ToolError('the real ChaseLevDeque does not follow the counterexample of %s (model and code disagree)' % cfg)
+            ctx.cov['traces_replayed_in_impl'] = ctx.cov.get('traces_replayed_in_impl', 0) + 1
+            path = ctx.save_replay('C10-chaselev-%s.txt' % cfg.replace('.cfg', ''),
+                                   'ChaseLevDeque<int,%d>, program %s\nschedule (replayed on the real deque, no divergence):\n%s\n'
+                                   'memory orders extracted from the working tree:\n%s\n\n%s'
+                                   % (cap, prog, p.stdout, extracted['chaselev'], r.counterexample()))
+            ctx.violation('model:chaselev:tentative-steal-read',
+                          WHAT + ': try_steal/try_steal_into read slot[top] before their CAS; a stealer that loaded a stale top_ '
+                          'reads the slot while the owner (ordered only after the WINNING stealer) writes it after wrap-around; '
+                          'the losing CAS discards the value', path)
+        elif r.violation:
+            path = ctx.save_replay('C10-chaselev-%s.txt' % cfg.replace('.cfg', ''), r.counterexample())
+            ctx.violation('model:chaselev:%s:%s' % (cfg, r.violation), WHAT + ' [ChaseLevDeque incl. tentative reads]: ' + r.violation, path)
     ctx.sample({'extracted_orders_mpmc': extracted.get('mpmc', '')[:3000]})
     ctx.sample({'extracted_orders_event': extracted.get('event', '')[:2000]})
-    ctx.cov['components'] = [c[0] for c in COMPONENTS]
-    ctx.cov['litmus'] = LITMUS_CLEAN + LITMUS_RACY
-    ctx.cov['traces_validated_against_impl'] = 0
+    ctx.cov['components'] = [c[0] for c in COMPONENTS + FENCE_COMPONENTS]
+    ctx.cov['litmus'] = LITMUS_CLEAN + LITMUS_RACY + ['fence:' + n for n in LITMUSF_CLEAN + LITMUSF_RACY]
+    ctx.cov['traces_validated_against_impl'] = ctx.cov.get('traces_replayed_in_impl', 0)
     ctx.assumptions += [
         'TLC explores sequentially consistent interleavings; each is a legal C++ execution and happens-before is computed from the '
         'declared orders only, so every reported race is real; races that need a non-SC execution can be missed',
         'scope = the components listed in coverage.components, not all of dispenso',
         'the action structure of each spec is kept honest by the SC conformance checks of the owning property (e.g. C34)',
         'release sequences follow the C++11-17 rule (same-thread relaxed stores continue them)',
+        'fences ([atomics.fences]): release fence + later atomic write carries the fence clock, atomic read + later acquire fence '
+        'acquires it; seq_cst fences add no happens-before edge of their own (spec/lib/MemOrderF.tla, self-tested on fence litmus programs)',
     ]
